@@ -249,6 +249,8 @@ func replayRegion(args []string) {
 				v := v0
 				if opq {
 					v = v1
+				} else if i%3 == pat {
+					v = []byte{} // an empty (stored, non-nil) value fails the opaque test just like v0
 				}
 				pairs[i] = KV{k, v}
 				if (opq && in1[i+1]) || (!opq && in0[i+1]) {
@@ -556,6 +558,8 @@ func recordRegion(args []string) {
 			v := "v0"
 			if j%2 == 0 {
 				v = "v1"
+			} else if j%3 == 0 {
+				v = "" // stored with an empty value
 			}
 			pairs = append(pairs, KV{universe[j], []byte(v)})
 		}
